@@ -46,6 +46,10 @@ BASE_QUERIES = [
     'Pr[<=10](<> d0 < 0.1234567891)', 'Pr[<=10](<> d0 == 1.0)', 'Pr[<=10; 7](<> b0)', 'Pr[<=10](b0 U b1)', 'Pr[<=10]([] b0) >= 1.0', 'E[x0<=10; 100](max: v0)', 'A[] x0 <= 5 imply v0 == 0',
 ]
 
+# quantifier binders over ranges at and next to the bounds of the default integer range: the range is part of the tree
+BASE_QUERIES += ['A[] forall (i : int[0,32767]) v0 < i + 1', 'A[] forall (i : int[-32768,5]) v0 > i - 1', 'A[] exists (i : int[-32768,32767]) v0 == i', 'A[] forall (i : int[1,32767]) v0 < i',
+                 'A[] forall (i : int[0,32766]) v0 <= i', 'A[] forall (i : int[-32767,32767]) v0 != i', 'E<> sum (i : int[0,32767]) i > v0', 'A[] forall (i : int[0,3]) forall (j : int[-32768,3]) v0 < i + j + 40000',
+                 'A[] forall (i : int) v0 != i || v0 == i']
 QUERIES = list(BASE_QUERIES)          # imported by C19
 
 
@@ -207,7 +211,7 @@ def check(run):
             run.tie_broken('printer model vs expression_t::str()', corr_mism[:6])
         # ---- queries: direct oracle through TigaPropertyBuilder ----------------------------------------------
         qj = vlib.Job()
-        qj.case('q', fork=False).model('xta', exprgen.FIXTURE_XTA)
+        qj.case('q', fork=False).cmd('BIND 1').model('xta', exprgen.FIXTURE_XTA)     # binders are dumped with their types: a printed range must re-parse to the same range
         for q in QUERIES:
             qj.query(q, rt=True)
         qj.end()
@@ -217,7 +221,7 @@ def check(run):
         if cs['status'] != 'ok':
             qj2 = vlib.Job()
             for i, q in enumerate(QUERIES):
-                qj2.case('q%d' % i, fork=True).model('xta', exprgen.FIXTURE_XTA).query(q, rt=True).end()
+                qj2.case('q%d' % i, fork=True).cmd('BIND 1').model('xta', exprgen.FIXTURE_XTA).query(q, rt=True).end()
             qres2 = vlib.run_jobs(qj2)
             cmds = []
             for i, q in enumerate(QUERIES):
@@ -226,9 +230,9 @@ def check(run):
                     run.fail('string conversion / re-parse of query %r crashes: %s' % (q, c2['status']), dict(query=q, status=c2['status']), shape='query-crash:' + q.split()[0])
                     cmds.append(None)
                 else:
-                    cmds.append(c2['cmds'][1] if len(c2['cmds']) > 1 else None)
+                    cmds.append(c2['cmds'][2] if len(c2['cmds']) > 2 else None)
         else:
-            cmds = cs['cmds'][1:]
+            cmds = cs['cmds'][2:]
         nq = 0
         for q, cm in zip(QUERIES, cmds):
             if cm is None:
